@@ -1684,9 +1684,9 @@ MUTANTS += [
 
 # ---- round 15 seeds, and hand mutants of the plain double-and-add multiplication (R-POLY/doubleadd, added after the C06 seed was missed)
 MUTANTS += [
- dict(name='seed-C02-is-zero-dword-fold', prop='C02', novd=True, patch='seeded/C02-is-zero-dword-fold-shifts-by-sizeof/patch.diff', expect=''),
+ dict(name='seed-C02-is-zero-dword-fold', prop='C02', patch='seeded/C02-is-zero-dword-fold-shifts-by-sizeof/patch.diff', expect='R-PRED/bigint'),
  dict(name='seed-C05-fq2-is-one-from-is-zero', prop='C05', patch='seeded/C05-fq2-is-one-copied-from-is-zero/patch.diff', expect='Fq2::is_one'),
- dict(name='seed-C06-doubleadd-skips-zero-words', prop='C06', novd=True, patch='seeded/C06-doubleadd-skips-zero-scalar-words/patch.diff', expect=''),
+ dict(name='seed-C06-doubleadd-skips-zero-words', prop='C06', patch='seeded/C06-doubleadd-skips-zero-scalar-words/patch.diff', expect='R-POLY/doubleadd'),
  dict(name='seed-C09-compressed-never-validates', prop='C09', patch='seeded/C09-compressed-decode-never-validates/patch.diff', expect='VIOLATION property=C09'),
  dict(name='seed-C13-message-hash-reduce', prop='C13', patch='seeded/C13-message-exponent-through-hash-reduce/patch.diff', expect='VIOLATION property=C13'),
  dict(name='seed-C17-length-firstbyte-eq-1', prop='C17', patch='seeded/C17-unmarshalled-length-firstbyte-equals-one/patch.diff', expect='VIOLATION property=C17'),
@@ -1705,4 +1705,27 @@ MUTANTS += [
  dict(name='c06-benign-doubleadd-while-loop', prop='C06', benign=True, expect='',
       edits=[('include/bls12_381/curve.hpp', 'for (int i = highest_bit; i != -1; i--) {\n                this->multiply2(*this);\n                if (scalar.bit(i)) {',
               'for (int i = highest_bit; i >= 0; --i) {\n                this->multiply2(*this);\n                if (scalar.bit(i)) {')]),
+ # correct word-at-a-time rewrites of the same routine (the seeded one without the zero-word shortcut; with a shortcut that still doubles)
+ dict(name='c06-benign-doubleadd-wordwise', prop='C06', benign=True, expect='', patch='selftest/fixes/c06-benign-doubleadd-wordwise.patch'),
+ dict(name='c06-benign-doubleadd-wordwise-zero-word-doubles', prop='C06', benign=True, expect='', patch='selftest/fixes/c06-benign-doubleadd-wordwise-zero-word-doubles.patch'),
+ # R-PRED/bigint: is_zero must test every bit of the value
+ dict(name='c02-is-zero-skips-word-0', prop='C02', expect='R-PRED/bigint',
+      edits=[('include/core/bigint.hpp', 'for (int i = 0; i != word_length; i++) {\n                if (this->words[i] != 0) {\n                    return false;',
+              'for (int i = 1; i != word_length; i++) {\n                if (this->words[i] != 0) {\n                    return false;')]),
+ # the seeded double-word fold with the shift corrected to a whole word: R-PRED/bigint accepts it; R-WORDALG/c++ declines the or of
+ # overlapping double words inside fp_inverse (no verdict, no alarm)
+ dict(name='c02-benign-is-zero-dword-fold', prop='C02', benign='noverdict', expect='', patch='selftest/fixes/c02-benign-is-zero-dword-fold.patch'),
+]
+
+# ---- round 16 seeds
+MUTANTS += [
+ dict(name='seed-C03-x86-square-adddiagonal', prop='C03', patch='seeded/C03-x86-square-adddiagonal-carry-into-accumulator/patch.diff', expect='R-WORDALG'),
+ dict(name='seed-C07-gt-exp-static-table', prop='C20', patch='seeded/C07-exponentiate-gt-static-table-keyed-by-address/patch.diff', expect='R-EFFECT'),
+ dict(name='seed-C07-gt-exp-static-table-on-C07', prop='C07', novd=True, patch='seeded/C07-exponentiate-gt-static-table-keyed-by-address/patch.diff', expect=''),
+ dict(name='seed-C10-powers-random-clear-outside-retry', prop='C10', patch='seeded/C10-powers-random-table-clear-outside-retry/patch.diff', expect='VIOLATION property=C10'),
+ dict(name='seed-C11-qualifykey-tail-copy-ignores-omit-all', prop='C11', patch='seeded/C11-nondelegable-qualifykey-tail-copy-ignores-omit-all/patch.diff', expect='R-HIDDEN/all'),
+ dict(name='seed-C14-deferred-removal-early-return', prop='C14', novd=True, patch='seeded/C14-adjust-precomputed-deferred-removal-early-return/patch.diff', expect=''),
+ dict(name='seed-C16-encrypt-raw-sp-coordinates', prop='C16', patch='seeded/C16-encrypt-pairs-raw-sp-coordinates/patch.diff', expect='VIOLATION property=C16'),
+ # the correct form of the C14 refactor (removed terms summed in a new local, negated once at the end): declined, not reported
+ dict(name='c14-benign-adjust-precomputed-deferred-removal', prop='C14', benign='noverdict', expect='', patch='selftest/fixes/c14-benign-adjust-precomputed-deferred-removal.patch'),
 ]
